@@ -3,6 +3,7 @@
 //! implementation's numeric answer.
 mod util;
 mod c_inflights;
+mod c_confchange;
 
 fn main() {
     let args: Vec<String> = std::env::args().collect();
@@ -14,6 +15,7 @@ fn main() {
     let rest = &args[2..];
     match args[1].as_str() {
         "inflights" => c_inflights::main(rest),
+        "confchange" => c_confchange::main(rest),
         other => {
             eprintln!("unknown component {}", other);
             std::process::exit(2);
